@@ -436,12 +436,14 @@ func init() {
 			c.Require("seq_must_accept")
 			c.Require("porcupine_ok")
 			c.Require("direct_duplicate_rounds")
+			c.Require("process_replays_refused_across_reload")
 			if c.Batch%2 == 0 {
 				c07Sequential(c)
 			} else {
 				c07Concurrent(c, c.N(300, 1500))
 			}
 			c07EndToEnd(c)
+			c07ProcessLevel(c)
 		},
 	})
 }
